@@ -6,4 +6,4 @@ git -C $W checkout -q -- . ; git -C $W apply $p || { echo "APPLY FAILED $p"; exi
 for prop in "$@"; do
   PYP0F_REPO=$W VERIF_EVIDENCE_DIR=/verif/work/evidence-seeded VERIF_JOBS=8 /verif/check $prop 2>&1 | grep -E '^\[|-> ' | sort | uniq -c | cut -c1-230
 done
-git -C $W checkout -q -- .
+git -C $W checkout -q -- . ; git -C $W clean -fdq
